@@ -1,0 +1,60 @@
+//go:build verif
+
+// Contracts for package blockchain, checked by /verif/govc (comment-only file).
+package blockchain
+
+// The store is content-addressed: every entry of blocks is keyed by the hash the block carries.
+//@ pred binv(c *Blockchain) = forall h hotstuff.Hash :: has(c.blocks, h) ==> c.blocks[h] != nil && c.blocks[h].hash == h
+
+//@ pred bmaps(c *Blockchain) = c.blocks != nil && c.blockAtHeight != nil && c.pendingFetch != nil && (forall h hotstuff.Hash :: has(c.pendingFetch, h) ==> c.pendingFetch[h] != nil)
+
+//@ func (*Blockchain).Store property C13
+//@   requires block != nil && binv(chain) && bmaps(chain)
+//@   ensures [inv] binv(chain) && bmaps(chain)
+//@   ensures [stored] has(chain.blocks, block.hash) && chain.blocks[block.hash] == (old(has(chain.blocks, block.hash)) ? old(chain.blocks[block.hash]) : block)
+//@   ensures [others] forall h hotstuff.Hash :: h != block.hash ==> has(chain.blocks, h) == old(has(chain.blocks, h)) && chain.blocks[h] == old(chain.blocks[h])
+//@   ensures [idempotent] old(has(chain.blocks, block.hash)) ==> (forall h hotstuff.Hash :: has(chain.blocks, h) == old(has(chain.blocks, h)) && chain.blocks[h] == old(chain.blocks[h])) && (forall v hotstuff.View :: has(chain.blockAtHeight, v) == old(has(chain.blockAtHeight, v)) && chain.blockAtHeight[v] == old(chain.blockAtHeight[v]))
+//@   modifies chain.blocks[*], chain.blockAtHeight[*]
+//@   opt callbacks pure
+
+//@ func (*Blockchain).LocalGet property C13
+//@   requires binv(chain)
+//@   ensures [def] result1 == has(chain.blocks, hash) && (result1 ==> result0 == chain.blocks[hash] && result0 != nil && result0.hash == hash)
+//@   ensures [miss] !result1 ==> result0 == nil
+
+//@ func (*Blockchain).Get property C13
+//@   requires binv(chain) && bmaps(chain) && chain.sender != nil && chain.eventLoop != nil
+//@   ensures [inv] binv(chain) && bmaps(chain)
+//@   ensures [content] ok ==> block != nil && block.hash == hash && has(chain.blocks, hash) && chain.blocks[hash] == block
+//@   ensures [miss] !ok ==> block == nil && !has(chain.blocks, hash)
+//@   ensures [oracle] ok == (old(has(chain.blocks, hash)) || core.avail(hash))
+//@   ensures [which] ok ==> block == (old(has(chain.blocks, hash)) ? old(chain.blocks[hash]) : core.fetched(hash))
+//@   ensures [grow] forall h hotstuff.Hash :: h != hash ==> has(chain.blocks, h) == old(has(chain.blocks, h)) && chain.blocks[h] == old(chain.blocks[h])
+//@   modifies chain.blocks[*], chain.blockAtHeight[*], chain.pendingFetch[*], chain.eventLoop.handlers[*], alloc
+
+// ---- ancestry. getok/getblk describe what Get yields for a hash: the stored block, else the
+// block the network oracle returns. anc is the property's notion: target lies on block's
+// parent chain (followed while views are above the target's) or is the block itself,
+// blocks identified by hash.
+//@ pure func getok(c *Blockchain, h hotstuff.Hash) bool = has(c.blocks, h) || core.avail(h)
+//@ pure func getblk(c *Blockchain, h hotstuff.Hash) *hotstuff.Block = has(c.blocks, h) ? c.blocks[h] : core.fetched(h)
+//@ pure func anc(c *Blockchain, b *hotstuff.Block, t *hotstuff.Block) bool = b.hash == t.hash || (b.view > t.view && getok(c, b.parent) && getblk(c, b.parent).view < b.view && anc(c, getblk(c, b.parent), t)) decreases b.view
+
+// Assumptions of the property statement: views grow along parent links; a hash determines
+// the block's content (collision resistance of SHA-256, C12); fetched blocks carry their hash.
+//@ pred grows(c *Blockchain) = forall b *hotstuff.Block :: b != nil && getok(c, b.parent) ==> getblk(c, b.parent).view < b.view
+//@ pred hashdet() = forall b1 *hotstuff.Block, b2 *hotstuff.Block :: b1 != nil && b2 != nil && b1.hash == b2.hash ==> b1.view == b2.view && b1.parent == b2.parent
+//@ pred fetchwf() = forall h hotstuff.Hash :: core.avail(h) ==> core.fetched(h) != nil && core.fetched(h).hash == h
+
+//@ func (*Blockchain).Extends property C13
+//@   requires block != nil && target != nil && binv(chain) && bmaps(chain) && chain.sender != nil && chain.eventLoop != nil
+//@   requires [views-grow] grows(chain)
+//@   requires [collision-resistance] hashdet()
+//@   requires [fetch-wf] fetchwf()
+//@   ensures [exact] result == old(anc(chain, block, target))
+//@   ensures [inv] binv(chain) && bmaps(chain)
+//@   loop 0 invariant [inv] binv(chain) && bmaps(chain)
+//@   loop 0 invariant [cur] ok ==> current != nil
+//@   loop 0 invariant [frame] forall h hotstuff.Hash :: getok(chain, h) == old(getok(chain, h)) && getblk(chain, h) == old(getblk(chain, h))
+//@   loop 0 invariant [anc] (ok && old(anc(chain, current, target))) == old(anc(chain, block, target))
+//@   modifies chain.blocks[*], chain.blockAtHeight[*], chain.pendingFetch[*], chain.eventLoop.handlers[*], alloc
